@@ -1704,7 +1704,7 @@ class Domain:
             if name.startswith("lxml.etree.fromstring") or name in ("lxml.etree.XML", "xml.etree.ElementTree.fromstring"):
                 self.oblige(e, name, ["SyntaxError", "ValueError"], st, None)
                 return st
-            if base in STDLIB_PARTIAL:
+            if base in STDLIB_PARTIAL and name == base and not (base == "re.compile" and args and isinstance(self.const(args[0]), str)):
                 classes, why = STDLIB_PARTIAL[base]
                 self.oblige(e, base, list(classes), st, None, why=why)
                 return st
